@@ -8,10 +8,13 @@ import ParanoidModel.Driver.BitSeq
 import ParanoidModel.Driver.Bookkeeping
 import ParanoidModel.Driver.Suite
 import ParanoidModel.Driver.Ec
+import ParanoidModel.Driver.NTheory
+import ParanoidModel.Driver.LinAlg
+import ParanoidModel.Driver.Lattice
 open Paranoid.Driver
 
 /-- all dispatchers, tried in order. -/
-def dispatchers : List Dispatcher := [basicOps, ntheoryOps, factoringOps, rsaCheckOps, ecdsaOps, closedFormOps, rngOps, bmOps, bitseqOps, bookkeepingOps, suiteOps, ecOps]
+def dispatchers : List Dispatcher := [basicOps, nt19Ops, ntheoryOps, factoringOps, rsaCheckOps, ecdsaOps, closedFormOps, rngOps, bmOps, bitseqOps, bookkeepingOps, suiteOps, ecOps, latticeOps, linalgOps]
 
 def respond (regs : List (String × String)) (line : String) : String :=
   let toks := ((line.trimAscii.toString.splitOn " ").filter (· ≠ "")).map fun t =>
